@@ -840,7 +840,8 @@ func (m *OrderedMap) PopIterate(fn MapPopIterationFunc) error {
 		}
 	}
 
-	return nil
+	// This container is changed by removing all elements: update parent container, if any.
+	return m.notifyParentIfNeeded()
 }
 
 // Slab operations (split root, promote child slab to root)
